@@ -48,6 +48,12 @@ func (r *CallRule) callerMatches(fn *ssa.Function, rulePkg string) bool {
 		names = append(names, f.Pkg.Pkg.Path()+"::"+f.RelString(f.Pkg.Pkg))
 	}
 	for _, pat := range r.Callers {
+		if strings.HasPrefix(pat, "implements:") {
+			if fn.Pkg != nil && fn.Pkg.Pkg.Path() == rulePkg && implementsMethod(fn, strings.TrimPrefix(pat, "implements:")) {
+				return true
+			}
+			continue
+		}
 		for _, q := range expandBraces(pat) {
 			if !strings.Contains(q, "::") {
 				q = rulePkg + "::" + q
@@ -62,9 +68,98 @@ func (r *CallRule) callerMatches(fn *ssa.Function, rulePkg string) bool {
 	return false
 }
 
+// implementsMethod: fn is a method (not a closure) of a type that implements the named
+// interface (pkgname.Iface, resolved among the packages the function's package imports),
+// and the method's name is in that interface's method set. The set of callers is thus
+// generated from the program: a new handler becomes a caller without editing the contract.
+func implementsMethod(fn *ssa.Function, ifaceName string) bool {
+	if fn.Parent() != nil || fn.Signature.Recv() == nil || fn.Pkg == nil {
+		return false
+	}
+	i := strings.LastIndex(ifaceName, ".")
+	if i < 0 {
+		return false
+	}
+	pkgName, name := ifaceName[:i], ifaceName[i+1:]
+	var cands []*types.Interface
+	var find func(p *types.Package, depth int)
+	seen := map[*types.Package]bool{}
+	find = func(p *types.Package, depth int) {
+		if seen[p] || depth > 2 {
+			return
+		}
+		seen[p] = true
+		if p.Name() == pkgName || strings.HasSuffix(p.Path(), "/"+pkgName) || p.Path() == pkgName {
+			if o, ok := p.Scope().Lookup(name).(*types.TypeName); ok {
+				if x, ok := o.Type().Underlying().(*types.Interface); ok {
+					cands = append(cands, x)
+				}
+			}
+		}
+		for _, imp := range p.Imports() {
+			find(imp, depth+1)
+		}
+	}
+	find(fn.Pkg.Pkg, 0)
+	rt := fn.Signature.Recv().Type()
+	for _, it := range cands {
+		if !types.Implements(rt, it) {
+			if _, isPtr := rt.(*types.Pointer); isPtr || !types.Implements(types.NewPointer(rt), it) {
+				continue
+			}
+		}
+		for k := 0; k < it.NumMethods(); k++ {
+			if it.Method(k).Name() == fn.Name() {
+				return true
+			}
+		}
+	}
+	return false
+}
+
+// applyRuleEnsures: scoped definitional postconditions attached by callrules to callees
+func (c *Ctx) applyRuleEnsures(cc *ssa.CallCommon, res *Val, st *State) {
+	id := c.identifyCallee(cc)
+	for _, r := range c.activeRules {
+		if len(r.Ensures) == 0 || !matchAny(r.Callees, id.short) || matchAny(r.Except, id.short) {
+			continue
+		}
+		env := c.baseEnv(st, c.entry)
+		var args []*Val
+		if cc.IsInvoke() {
+			args = append(args, c.operand(cc.Value, st))
+		}
+		for _, a := range cc.Args {
+			args = append(args, c.operand(a, st))
+		}
+		k := 0
+		if cc.IsInvoke() || (id.sig != nil && id.sig.Recv() != nil) {
+			if len(args) > 0 {
+				env.names["self"] = args[0]
+				k = 1
+			}
+		}
+		for i := k; i < len(args); i++ {
+			env.names[fmt.Sprintf("a%d", i-k)] = args[i]
+		}
+		if res != nil {
+			if res.K == VTuple {
+				c.bindResults(env, id.sig, res.F, nil)
+			} else {
+				c.bindResults(env, id.sig, []*Val{res}, nil)
+			}
+		}
+		c.ruleHits[r.Name]++
+		for _, e := range r.Ensures {
+			c.assumeHere(c.evalBool(e.E, env, "callrule ensures "+r.Name))
+			c.definesUsed["callrule "+r.Name+" on "+id.short+": "+e.Src] = true
+		}
+	}
+}
+
 func (c *Ctx) applyCallRules(id calleeID, site string, args []*Val, cc *ssa.CallCommon, st *State) {
 	for _, r := range c.activeRules {
-		if !matchAny(r.Callees, id.short) {
+		if len(r.Requires) == 0 || !matchAny(r.Callees, id.short) {
 			continue
 		}
 		if matchAny(r.Except, id.short) {
